@@ -1,1 +1,72 @@
-// verification hook for h263/src/decoder/state.rs (compiled only under cfg(kani) or cfg(ruffle_rs_h263_rs_verif))
+// Hook module of h263/src/decoder/state.rs: discharge of the R6 helpers and of the bitflags model (A-BITFLAGS) that the Verus
+// state unit assumes — each proved on the REAL code (real lazy_static, real bitflags-generated operators) for its whole domain.
+#![allow(dead_code, unused_imports)]
+use super::*;
+
+include!("/verif/hooks/common.rs");
+
+fn h_ceil_div16<S: Src>(s: &mut S) {
+    let x = s.u16();
+    // the SAME expression text as in decode_next_picture
+    let mb = (x as f64 / 16.0).ceil() as usize;
+    chk!(s, mb == (x as usize + 15) / 16, "state.decode_body.ceil_div16: (x as f64 / 16.0).ceil() as usize == (x + 15) / 16 for every u16");
+    s.reach();
+}
+fn h_option_masks<S: Src>(s: &mut S) {
+    chk!(s, (*OPPTYPE_OPTIONS).bits() == 0x1FF8, "types.OPPTYPE_OPTIONS.value: bits 3..=12");
+    chk!(s, (*MPPTYPE_OPTIONS).bits() == 0xE000, "types.MPPTYPE_OPTIONS.value: bits 13..=15");
+    s.reach();
+}
+// the model `struct PictureOption { bits }` with |, &, ! (truncating to the 17 defined flags), contains, empty
+fn h_bitflags_model<S: Src>(s: &mut S) {
+    let (a, b) = (s.u32() & 0x1FFFF, s.u32() & 0x1FFFF);
+    let (fa, fb) = (PictureOption::from_bits_truncate(a), PictureOption::from_bits_truncate(b));
+    chk!(s, fa.bits() == a && fb.bits() == b, "bitflags.PictureOption.bits: from_bits_truncate keeps the 17 defined flags");
+    chk!(s, (fa | fb).bits() == (a | b), "bitflags.PictureOption.bitor: bits == a | b");
+    chk!(s, (fa & fb).bits() == (a & b), "bitflags.PictureOption.bitand: bits == a & b");
+    chk!(s, (!fa).bits() == (!a & 0x1FFFF), "bitflags.PictureOption.not: bits == !a truncated to the defined flags");
+    chk!(s, fa.contains(fb) == (a & b == b), "bitflags.PictureOption.contains: (a & b) == b");
+    chk!(s, PictureOption::empty().bits() == 0, "bitflags.PictureOption.empty: no bits");
+    chk!(s, PictureOption::UNRESTRICTED_MOTION_VECTORS.bits() == 0b1000 && PictureOption::MODIFIED_QUANTIZATION.bits() == 0x1000 && PictureOption::USE_DEBLOCKER.bits() == 0x10000,
+         "bitflags.PictureOption.constants");
+    let d = s.u8() & 3;
+    let fd = DecoderOption::from_bits_truncate(d);
+    chk!(s, fd.contains(DecoderOption::SORENSON_SPARK_BITSTREAM) == (d & 1 == 1) && fd.contains(DecoderOption::USE_SCALABILITY_MODE) == (d & 2 == 2), "bitflags.DecoderOption.contains");
+    s.reach();
+}
+
+#[cfg(kani)]
+mod proofs {
+    use super::*;
+    #[kani::proof]
+    fn ceil_div16() {
+        h_ceil_div16(&mut KSrc)
+    }
+    #[kani::proof]
+    #[kani::unwind(8)]
+    fn option_masks() {
+        h_option_masks(&mut KSrc)
+    }
+    #[kani::proof]
+    fn bitflags_model() {
+        h_bitflags_model(&mut KSrc)
+    }
+}
+
+#[cfg(all(test, not(kani)))]
+mod replay {
+    use super::*;
+    fn dispatch(name: &str, r: &mut RSrc) -> bool {
+        match name {
+            "ceil_div16" => h_ceil_div16(r),
+            "option_masks" => h_option_masks(r),
+            "bitflags_model" => h_bitflags_model(r),
+            _ => return false,
+        }
+        true
+    }
+    #[test]
+    fn verif_replay() {
+        verif_replay_main(dispatch)
+    }
+}
